@@ -322,7 +322,8 @@ def run(rep: Report, tier: str, seed: int) -> None:
         if obs.outcome != "completed":
             if len(us) == 1:
                 rep.case("crashed:" + (us[0][0] if isinstance(us[0], tuple) else us[0].label))
-                rep.extra["crashed_units(C01)"] = rep.extra.get("crashed_units(C01)", 0) + 1
+                lb = us[0][1] if isinstance(us[0], tuple) else "tree"
+                rep.violation("run-completes", f"run:{obs.outcome}:{obs.crash_sig()}|{lb}|{'nc' if opts.convert else 'py'}", {"exc": obs.exc_type + ": " + obs.exc_msg, "tb": obs.exc_tb[-500:]}, files=files, src_rel=PKG, opts=opts, obs=obs)
             return
         slot = results.setdefault(key, {})
         slot[opts.convert] = obs
